@@ -97,6 +97,8 @@ Contract(c, st) ==
                                         ELSE IF off < 0 \/ off > sz THEN ErrR(st) ELSE AnyR(st))      \* at the start: the before-start sentinel
             ELSE (IF CharAt(q, off) # {} THEN ValR(IntV(q[CHOOSE i \in CharAt(q, off) : TRUE]), st)
                   ELSE IF off < 0 \/ off >= sz THEN ErrR(st) ELSE AnyR(st))
+    [] op = "types" ->        \* define c[3] fresh record types, construct / mutate / read one instance of each: the sum of (a + b') = 4 per type
+         IF ~Huge(c[3]) /\ c[3] >= 0 THEN ValR(IntV(4 * c[3]), st) ELSE AnyR(st)
     [] op = "arity" -> ErrR(st)                 \* a call with a wrong number of arguments
     [] op = "nonproc" -> ErrR(st)               \* application of a non-procedure
     [] op = "car" -> IF o = "L" /\ n > 0 THEN ValR(IntV(q[1]), st) ELSE ErrR(st)      \* car/cdr of a non-pair
@@ -125,6 +127,7 @@ AllCalls ==
   \cup {<<"make", k, i>> : k \in {"vector", "string", "bytevector"}, i \in {-1, 0, 1, 5, 1000000001, 1000000002, -1000000002}}
   \cup {<<"int->char", "N", x>> : x \in {0, 65, 55295, 55296, 57343, 57344, 1114111, 1114112, -1, 1000000002}}
   \cup {<<"cur", o, w, off>> : o \in {"S", "V", "N"}, w \in {"next", "prev", "ref"}, off \in {-1, 0, 1, 2, 3, 4, 5, 6, 100}}
+  \cup {<<"types", "N", k>> : k \in {1, 2, 7, 19, 40, 45, 90}}
   \cup {<<"arity", o, k>> : o \in {"V", "S", "L"}, k \in {0, 1, 3, 4}}
   \cup {<<"nonproc", o>> : o \in Objs}
   \cup {<<"car", o>> : o \in Objs}
